@@ -148,8 +148,13 @@ def r06b(ctx, repo):
         extra = [c_ for c_ in conj if c_ not in ("%s.fcn_str" % pv, "%s._precompute" % pv, "%s.fcn_str is not None" % pv)]
         ctx.check(("%s._precompute" % pv) in conj and not extra, "R06b", fi, u, "precomputable functions are always evaluated at build time", "the build-time function evaluation is additionally conditional on `%s`: where that fails the databook/scenario series is used for *all* times, including those outside the suspension window, so a scenario changes values before its first overwrite year" % " and ".join(extra or ["?"]))
     for v in V:
-        gs = [(ast.unparse(t_), pol) for t_, pol in guards_of(v, stop=l)]
-        ctx.check(any((not pol) and "_precompute" in t_ for t_, pol in gs), "R06b", fi, v, "databook values are used only when there is no precomputable function", "databook values can overwrite a precomputed function value")
+        # databook / scenario values are inserted whenever the parameter set has them: a function that a scenario suspends for part of the run
+        # (Parameter.update leaves those years untouched) needs them inside the window, precomputed or not
+        gs = [(ast.unparse(c_), pol) for t_, pol in guards_of(v, stop=l) for c_ in (R.split_conjuncts(t_) if pol else [t_])]
+        extra = [(t_, pol) for t_, pol in gs if not (pol and ".has_values(" in t_)]
+        ctx.check(not extra, "R06b", fi, v, "databook values are inserted whenever the parameter set has values", "the databook/scenario values are only inserted when `%s` is %s: for a precomputed function parameter that a scenario overwrites, the years inside the suspension window are written by nobody and stay NaN (and so does everything that depends on them)" % (extra[0][0][:60] if extra else "", extra[0][1] if extra else ""), stmt_text="databook-values-guard")
+        for u in U:
+            ctx.check(not cfg.path_exists(cfg.ids(u), cfg.ids(v), avoid_ids=head), "R06b", fi, v, "databook values never overwrite the precomputed function", "`%s` can run after `%s` in the same iteration: databook values overwrite the values of the function" % (norm(v)[:50], norm(u)), stmt_text="databook-after-function")
     if not Dd:
         ctx.fail("R06b", fi, l, "initial parameter values are never constrained to the framework limits", stmt_text="build-constrain-missing")
     else:
